@@ -289,7 +289,9 @@ func (r *Recorder) OnError()                         { r.add(Event{K: ERR}) }
 
 // Send delivers one event to a receiver. Mutable arguments are copied first so
 // that the receiver cannot rewrite the caller's log.
-func Send(rcv events.DataEventReceiver, e Event) {
+func Send(rcv events.DataEventReceiver, e Event) { send(rcv, e, cpBytes) }
+
+func send(rcv events.DataEventReceiver, e Event, cpBytes func([]byte) []byte) {
 	switch e.K {
 	case BD:
 		rcv.OnBeginDocument()
@@ -374,6 +376,31 @@ func Send(rcv events.DataEventReceiver, e Event) {
 	default:
 		panic(fmt.Sprintf("harness: unknown event kind %d", e.K))
 	}
+}
+
+// ReplayScratch is Replay for a producer that owns one buffer and reuses it for the byte argument of every
+// event (as a decoder reading into a fixed buffer does): each byte-slice argument is a prefix of the same
+// backing array, with spare capacity behind it, and is overwritten by the next event that carries bytes.
+func ReplayScratch(rcv events.DataEventReceiver, log []Event, scratch []byte) (idx int, panicked interface{}) {
+	idx = -1
+	cur := 0
+	defer func() {
+		if r := recover(); r != nil {
+			idx = cur
+			panicked = r
+		}
+	}()
+	cp := func(b []byte) []byte {
+		if b == nil || len(b) > len(scratch) {
+			return cpBytes(b)
+		}
+		copy(scratch, b)
+		return scratch[:len(b)]
+	}
+	for cur = 0; cur < len(log); cur++ {
+		send(rcv, log[cur], cp)
+	}
+	return -1, nil
 }
 
 // TrySend delivers one event and reports a panic as a value.
